@@ -260,6 +260,9 @@ func panicOriginInLibrary(stack []byte) bool {
 		switch {
 		case strings.HasPrefix(fn, "runtime."), strings.HasPrefix(fn, "runtime/"), strings.HasPrefix(fn, "panic("):
 			continue
+		case strings.HasPrefix(fn, "main.(*PS)."), strings.HasPrefix(fn, "main.PS."):
+			// a method of an ELEMENT (typed.go PS.String on a typed nil): whoever called it is the origin
+			continue
 		case strings.HasPrefix(fn, "main."):
 			return false
 		default:
